@@ -240,6 +240,7 @@ def run(ctx, anchors=None):
 
 
 MUTANTS = [
+    dict(name="element-limit-on-the-whole-witness", file="instance.cpp", find="            for (const auto& item : stack) {\n                if (item.size() > MAX_SCRIPT_ELEMENT_SIZE) {", replace="            for (const auto& item : wstack) {\n                if (item.size() > MAX_SCRIPT_ELEMENT_SIZE) {", expect=["R03.6:element-limit-on-the-initial-stack"]),
     dict(name="annex-hashed-without-its-length", file="instance.cpp", find="                execdata.m_annex_hash = (HashWriter{} << stack.back()).GetSHA256();", replace="                execdata.m_annex_hash = (HashWriter{} << Span<const unsigned char>{stack.back()}).GetSHA256();", expect=["R03.6:annex-hash"]),
     dict(name="tapscript-minimalif-behind-the-policy-flag", file="script/interpreter.cpp", find="                        if (sigversion == SigVersion::TAPSCRIPT) {\n                            // The input argument to the OP_IF and OP_NOTIF opcodes must be either", replace="                        if (sigversion == SigVersion::TAPSCRIPT && (flags & SCRIPT_VERIFY_MINIMALIF)) {\n                            // The input argument to the OP_IF and OP_NOTIF opcodes must be either", expect=["R03.8:consensus-error-not-flag-gated:TAPSCRIPT_MINIMALIF@StepScript"]),
     dict(name="legacy-scripts-not-validated", file="instance.cpp", find="        if (!scriptSig.HasValidOps() || !scriptPubKey.HasValidOps()) {", replace="        if (false) {", expect=["R03.6:scripts-validated-before-the-session"]),
